@@ -73,6 +73,15 @@ def make_block(rng):
                     c, d, e = rng.choice(KNOWN_CDE)
                 elif r < 0.55:
                     c, d, e = 1, 0, 0
+                elif r < 0.67:
+                    # a code that a *naive packing* of (C, D, E) cannot tell from a named one: base-100 / base-10 packing with a carry
+                    # (1.7.100 ~ 1.8.0), the digits written next to each other (1.80.0 ~ 18.0.0), one group above 99 or 199
+                    kc, kd, ke = rng.choice(KNOWN_CDE + [(1, 0, 0)])
+                    cand = [(kc, kd - 1, ke + 100), (kc - 1, kd + 100, ke), (kc - 1, kd + 99, ke + 100), (kc, kd - 2, ke + 200), (kc, kd - 1, ke + 10), (kc - 1, kd + 10, ke),
+                            (int(f"{kc}{kd}"), ke, 0), (kc, int(f"{kd}{ke}"), 0), (0, kc, int(f"{kd}{ke}")), (kc + 100, kd, ke), (kc, kd + 100, ke), (kc, kd, ke + 100), (kc, kd, ke + 200), (kc + 256 - 256, kd, (ke + 128) % 256)]
+                    cand = [t for t in cand if all(0 <= x <= 255 for x in t)]
+                    c, d, e = rng.choice(cand) if cand else (rng.randrange(256), rng.randrange(256), rng.randrange(256))
+                    tags.add("code_next_to_a_named_one_under_a_naive_packing")
                 else:
                     c, d, e = rng.randrange(256), rng.randrange(256), rng.randrange(256)
                 key = names.OBIS_NAMES.get(f"{c}.{d}.{e}", f"{c}.{d}.{e}")
@@ -175,11 +184,37 @@ def compare_decoded(got, expect: dict, ctx, case, what: str) -> None:
             ctx.violation(f"C11:{what}:unexpected-key", f"{what}: unexpected key {key!r} = {got[key]!r:.40}", case)
 
 
+_blocks = 0
+
+
 def check_block(block, parse_expect, decode_expect, ident, ctx) -> None:
     from han import dlde
     from han.autodecoder import AutoDecoder
 
     case = {"block": block, "ident": ident[0]}
+    global _blocks
+    _blocks += 1
+    if _blocks % 6 == 0:
+        # a process that also serves DLMS meters: the other decoders meet this block's codes (named or not) in their own lists first
+        import re as _re
+
+        from han import aidon as _aidon, kaifa as _kaifa, kamstrup as _kamstrup
+        from vf.ref import cosem_enc as _ce
+
+        codes = []
+        for addr, _vals in parse_expect[:6]:
+            m = _re.search(r"(\d+)\.(\d+)\.(\d+)", addr)
+            if m:
+                codes.append(tuple(int(x) for x in m.groups()))
+        for c, d, e in codes:
+            for fn, body in ((_kamstrup.decode_notification_body, _ce.kamstrup_body("Kamstrup_V0001", [((1, 1, c, d, e, 255), _ce.u32(7))])),
+                             (_aidon.decode_notification_body, _ce.aidon_body([_ce.aidon_element((1, 0, c, d, e, 255), "u32", 7, 0, _ce.UNIT_W)])),
+                             (_kaifa.decode_notification_body, _ce.kaifa_obis_body([((1, 0, c, d, e, 255), _ce.u32(7)), ((1, 0, 2, 7, 0, 255), _ce.u32(8))]))):
+                try:
+                    fn(body)
+                except Exception:
+                    pass  # whether the other decoder likes the code is not this property's business
+        ctx.count("blocks_whose_codes_another_decoder_met_first")
     # --- parsing
     try:
         parsed = dlde.parse_p1_readout_content(block)
